@@ -37,6 +37,27 @@ Definition t_last (tr : track) : did := snd (snd tr).       (* track.last = drop
 Definition t_append (tr : track) (e : entry) : track := (entries tr, e).   (* track.append(d, time=t) *)
 Definition t_new (e : entry) : track := ([], e).            (* DropletTrack(droplets=[d], times=[t]) *)
 
+(* DropletTrack.append(droplet, time=None) seen on the list of time codes:
+       if time is None: time = 0 if len(self.times) == 0 else self.times[-1] + 1
+       self.times.append(time)
+   `None` = the argument was omitted (or None); every other value -- 0 included -- is stored as given.
+   The frame loop below always passes the frame's time explicitly (t_append / t_new). *)
+Fixpoint last_time (times : list Q) : option Q :=
+  match times with
+  | [] => None
+  | [t] => Some t
+  | _ :: r => last_time r
+  end.
+Definition append_time (times : list Q) (time : option Q) : Q :=
+  match time with
+  | Some t => t
+  | None => match last_time times with None => 0 | Some l => l + 1 end
+  end.
+Definition append_times (times : list Q) (time : option Q) : list Q :=
+  times ++ [append_time times time].
+(* a whole history of appends on a fresh track *)
+Definition appends (ops : list (option Q)) : list Q := fold_left append_times ops [].
+
 (* emulsion of frame f with n droplets, in iteration order *)
 Definition frame_ids (f n : nat) : list did := map (fun j => (f, j)) (seq 0 n).
 
